@@ -22,6 +22,18 @@
 //!  * pname (7 mod 8): one triple whose object is an IRI, random prefix map; oracle as above;
 //!    Coq: `pname_ok` = model of get_checked_prefixed_pair + regenerated PN_LOCAL against the token written.
 //!
+//!  * term (indices 1_000_000 + k, n/4 of them): ONE TERM in a chosen position (object, subject, predicate, graph name;
+//!    the components of quoted triples are reached through quoted terms) of a one-statement dataset, under a generated
+//!    prefix map (prefixes that are prefixes of each other, `a.b`, `true`, the empty prefix, namespaces ending in `#`,
+//!    `/`, in the middle of a segment, equal namespaces), written by the real pretty serializer.  The layout around
+//!    the term is known (write_tree / write_properties), so the BYTES OF THE TERM are cut out of the output and compared
+//!    inside Coq with C04/TermText.v (`wr_at`, byte for byte); the hypotheses of the term theorem are evaluated on the
+//!    case (`hyps_ok`) and the reference reader of C04/TermRead.v reads the real bytes + continuation back
+//!    (`reads_back`).  ORACLE: sophia's own parser reads the document back to the same statement.  Directed material:
+//!    near-miss lexical forms of the shorthands, local names with every PN_LOCAL_ESC character, `%` sequences,
+//!    leading / trailing `.` `-` `:`, non-ASCII and astral code points, labels with inner dots, relative IRIs,
+//!    rdf:nil, variables (text compared, reader must reject), and inputs OUTSIDE the hypotheses (text compared only).
+//!
 //!  `--witness` runs the recorded witnesses of the defects found on the original tree and exits.
 //!  `--probe-lex HEX` prints what the implementation does with the lexical form (UTF-8 bytes in hex).
 use sophia_api::prefix::{Prefix, PrefixMapPair};
@@ -76,7 +88,7 @@ static GUARD: Guard = Guard;
 
 // ---------------------------------------------------------------- terms
 #[derive(Clone, Debug, PartialEq, Eq, PartialOrd, Ord)]
-enum T { Iri(String), B(String), Lit(String, String), Lang(String, String), Tr(Box<[T; 3]>) }
+enum T { Iri(String), B(String), Lit(String, String), Lang(String, String), Tr(Box<[T; 3]>), V(String) }
 type Q = (Option<T>, [T; 3]);
 
 fn to_st(t: &T) -> ST {
@@ -86,6 +98,7 @@ fn to_st(t: &T) -> ST {
         T::Lit(l, d) => lit_dt(l, d),
         T::Lang(l, g) => lit_lang(l, g),
         T::Tr(b) => triple(to_st(&b[0]), to_st(&b[1]), to_st(&b[2])),
+        T::V(s) => var(s),
     }
 }
 fn from_term<X: Term>(x: X) -> T {
@@ -115,6 +128,7 @@ fn show(t: &T) -> String {
         T::Lit(l, d) => format!("{l:?}^^<{d}>"),
         T::Lang(l, g) => format!("{l:?}@{g}"),
         T::Tr(b) => format!("<< {} {} {} >>", show(&b[0]), show(&b[1]), show(&b[2])),
+        T::V(s) => format!("?{s}"),
     }
 }
 fn show_q(q: &Q) -> String {
@@ -561,6 +575,180 @@ fn describe(c: &Case) -> String {
         c.prefixes, c.indent, c.quads.iter().map(show_q).collect::<Vec<_>>().join(" "))
 }
 
+// ---------------------------------------------------------------- the term stream
+const TERM_BASE: usize = 1_000_000;
+const T_NS: &[&str] = &["http://example.org/ns/", "http://example.org/ns/sub/", "http://example.org/", "http://example.org/ns/sub#", "http://example.org/ns",
+    "http://example.org/ns/s", "http://example.org/ns/a", "urn:x:", "tag:t,2000:", RDF, XSD, "http://example.org/ns/%41", "http://\u{e9}.example/", "http://example.org/ns/sub/a.", "x:"];
+const T_PREFIXES: &[&str] = &["ex", "e", "a", "a.b", "ab", "a-b", "\u{e9}", "", "true", "false", "rdf", "xsd", "x1", "a\u{b7}b", "A", "z_9", "a.b.c", "t", "f", "\u{10000}", "a\u{203f}"];
+// (prefixes outside PN_PREFIX, labels outside BLANK_NODE_LABEL and strings that are not IRI references cannot be given to the
+// serializer through sophia's term types: in this build profile even `new_unchecked` validates; C04/TermProofs.v records
+// what happens to them as `..._refuted` examples)
+const ESC_CHARS: &str = "_~.-!$&'()*+,;=/?#@%";
+const T_LOCALS: &[&str] = &["a", "abc", "a.b", "a.", ".a", "a/b", "a%20b", "a%2", "a%2g", "%41", "%4", "%", "a%", "a%20%21", "%zz", "a~b", "a:b", ":", "a:", ":a", "::", "", "9", "9a", "-a", "a-", "-", ".", "..",
+    "a..b", "a.-", "a-.", "\u{e9}", "a\u{b7}", "\u{b7}a", "_", "a__b", "a\u{203f}b", "\u{300}a", "a\u{300}", "nil", "type", "x\u{10000}", "\u{10000}", "x\u{effff}", "\u{f0000}", "a\u{f0000}b", "\u{fffe}", "\u{d7}", "a\u{d7}",
+    "A-Z_0.9", "sub/x", "sub#x", "s", "ub", "a.b.c", "1.5", "1e5", "+1", "true", "false", "a,b", "a;b", "a)b", "a]b", "x\u{37e}", "\u{2070}", "\u{200c}", "\u{3000}"];
+const T_REL: &[&str] = &["", "foo", "#frag", "../x", "//host/p", "?q", "a/b", "./x", "foo:bar", "x:"];
+const T_NUM_LEX: &[&str] = &["+1", "1.", ".5", "1e", "1.e3", "TRUE", "01", "-0", "1E+5", "1e-5", ".e5", "+.5e-3", "true ", "tru", "false", "falsee", "true", "0", "12", "1.5", "-1.5", "+.5", ".", "", "1e5", "1.0E0", "00012",
+    "1x5", "55-e5", "1e2e3", "--1", "+", "-", "INF", "NaN", "1_000", "0x1F", "\u{661}", "1 ", " 1", "1\n", "1.5\n", "12.0", "1.2.3", "e5", "+-1", "1-e5", "True", "truefalse", "9999999999999999999999", "-.0", "+0.0e-0"];
+const T_STRINGS: &[&str] = &["", "chat", "a\"b", "a\\b", "line\nbreak", "tab\there", "cr\rhere", "\u{e9}\u{1F600}", "'''", "\"\"\"", "\"", "\\", "\\\"", "\u{0}", "\u{7f}", "a\u{85}b", "\u{feff}", "\u{10ffff}", "\\u0041",
+    "\"@en", "\"^^<x>", "x\" .\n<urn:a> <urn:b> \"y", "@", "^^", " ", "#"];
+const T_TAGS: &[&str] = &["en", "fr-BE", "EN-us", "x-a", "zh-Hant-TW", "de-1996", "en-a-bcd", "a-1", "e", "abcdefghi", "en-a-b-c"];
+/// LANGTAGs of the Turtle grammar (and valid for sophia's LanguageTag) that are not well-formed BCP47: sophia's parsers (Rio, oxilangtag)
+/// refuse them, so the oracle is not applied to them (recorded in the distribution)
+const T_NOT_BCP47: &[&str] = &["a-1", "e", "abcdefghi", "en-a-b-c"];
+fn has_non_bcp47(t: &T) -> bool { match t { T::Lang(_, g) => T_NOT_BCP47.contains(&g.as_str()), T::Tr(b) => b.iter().any(has_non_bcp47), _ => false } }
+/// accepted by sophia's LanguageTag::new, not a LANGTAG of the Turtle / N-Triples grammars ([a-zA-Z]+ first)
+const T_ODD_TAGS: &[&str] = &["a1", "en1-x", "x9"];
+const T_LABELS: &[&str] = &["b", "b1", "1", "a.b", "a.b-c", "a-b", "a\u{b7}b", "_x", "9.9", "a\u{300}", "\u{10000}", "a.b.c", "\u{e9}", "a-", "0", "_", "a.1", "true", "a_b", "x\u{203f}"];
+const T_DATATYPES: &[&str] = &["http://www.w3.org/2001/XMLSchema#integer", "http://www.w3.org/2001/XMLSchema#decimal", "http://www.w3.org/2001/XMLSchema#double", "http://www.w3.org/2001/XMLSchema#boolean",
+    "http://www.w3.org/2001/XMLSchema#string", "http://www.w3.org/2001/XMLSchema#float", "http://www.w3.org/2001/XMLSchema#int", "http://www.w3.org/2001/XMLSchema#String", "http://www.w3.org/2001/XMLSchema#integers",
+    "http://example.org/ns/dt", "http://example.org/ns/sub#dt", "dt", "", "http://www.w3.org/1999/02/22-rdf-syntax-ns#nil", "http://www.w3.org/1999/02/22-rdf-syntax-ns#langString", "urn:x:integer", "http://example.org/ns/a.b"];
+
+/// the characters IRIREF excludes: [#x00-#x20<>"{}|^`\]
+fn iri_chars_ok(s: &str) -> bool { s.chars().all(|c| (c as u32) > 0x20 && !"<>\"{}|^`\\".contains(c)) }
+fn pn_chars_base(c: char) -> bool {
+    let u = c as u32;
+    c.is_ascii_alphabetic() || (0xC0..=0xD6).contains(&u) || (0xD8..=0xF6).contains(&u) || (0xF8..=0x2FF).contains(&u) || (0x370..=0x37D).contains(&u) || (0x37F..=0x1FFF).contains(&u)
+        || (0x200C..=0x200D).contains(&u) || (0x2070..=0x218F).contains(&u) || (0x2C00..=0x2FEF).contains(&u) || (0x3001..=0xD7FF).contains(&u) || (0xF900..=0xFDCF).contains(&u)
+        || (0xFDF0..=0xFFFD).contains(&u) || (0x10000..=0xEFFFF).contains(&u)
+}
+fn pn_chars(c: char) -> bool { let u = c as u32; pn_chars_base(c) || c == '_' || c == '-' || c.is_ascii_digit() || u == 0xB7 || (0x300..=0x36F).contains(&u) || (0x203F..=0x2040).contains(&u) }
+/// (PN_CHARS | '.')* PN_CHARS, or nothing
+fn pn_tail_ok(cs: &[char]) -> bool { cs.is_empty() || (cs.iter().all(|&c| pn_chars(c) || c == '.') && pn_chars(*cs.last().unwrap())) }
+fn turtle_label_ok(s: &str) -> bool { let cs: Vec<char> = s.chars().collect(); !cs.is_empty() && (pn_chars_base(cs[0]) || cs[0] == '_' || cs[0].is_ascii_digit()) && pn_tail_ok(&cs[1..]) }
+fn turtle_prefix_ok(s: &str) -> bool { let cs: Vec<char> = s.chars().collect(); cs.is_empty() || (pn_chars_base(cs[0]) && pn_tail_ok(&cs[1..])) }
+fn turtle_langtag_ok(s: &str) -> bool {
+    let mut parts = s.split('-');
+    let first = parts.next().unwrap_or("");
+    !first.is_empty() && first.chars().all(|c| c.is_ascii_alphabetic()) && parts.all(|p| !p.is_empty() && p.chars().all(|c| c.is_ascii_alphanumeric()))
+}
+/// the hypotheses of the term theorem (wf_at of C04/TermText.v), decided independently in Rust; Coq decides them again
+fn term_in_hyps(t: &T, pos: usize) -> bool {
+    match t {
+        T::Iri(i) => iri_chars_ok(i),
+        T::B(l) => pos != 1 && turtle_label_ok(l),
+        T::Lit(_, d) => (pos == 2 || pos == 5) && iri_chars_ok(d),
+        T::Lang(_, g) => (pos == 2 || pos == 5) && turtle_langtag_ok(g),
+        T::Tr(b) => matches!(pos, 0 | 2 | 4 | 5) && term_in_hyps(&b[0], 4) && term_in_hyps(&b[1], 1) && term_in_hyps(&b[2], 5),
+        T::V(_) => false,
+    }
+}
+fn has_var(t: &T) -> bool { match t { T::V(_) => true, T::Tr(b) => b.iter().any(has_var), _ => false } }
+
+fn gen_t_prefixes(r: &mut Rng) -> (Vec<(String, String)>, &'static str) {
+    let mut pool: Vec<&str> = T_PREFIXES.to_vec();
+    let k = match r.below(8) { 0 => 0, 1 => 1, 2 | 3 => 2, 4 | 5 => 3, 6 => 5, _ => 8 };
+    let mut out: Vec<(String, String)> = vec![];
+    for _ in 0..k { let i = r.below(pool.len()); let p = pool.remove(i); out.push((p.to_string(), r.ps(T_NS).to_string())); }
+    match r.below(24) {
+        0 if !out.is_empty() => { let p = out[r.below(out.len())].0.clone(); out.push((p, r.ps(T_NS).to_string())); (out, "duplicate-prefix") }
+        _ => (out, "ok"),
+    }
+}
+fn gen_t_iri(r: &mut Rng, pm: &[(String, String)]) -> String {
+    let s = gen_t_iri_raw(r, pm);
+    // only IRI references can be given to the serializer (IriRef validates, see above)
+    if sophia_iri::IriRef::new(s.as_str()).is_ok() { s } else { format!("{EX}not-an-iri-reference") }
+}
+fn gen_t_iri_raw(r: &mut Rng, pm: &[(String, String)]) -> String {
+    match r.below(16) {
+        0 => r.ps(T_REL).to_string(),
+        1 => format!("{RDF}{}", r.ps(&["nil", "type", "first", "ni", "nill", "nil", "nil"])),
+        2 => { // a local name built around one PN_LOCAL_ESC character
+            let c = *r.pick(&ESC_CHARS.chars().collect::<Vec<_>>());
+            let l = match r.below(4) { 0 => format!("a{c}b"), 1 => format!("{c}a"), 2 => format!("a{c}"), _ => format!("{c}") };
+            format!("{}{l}", if pm.is_empty() || r.chance(1, 3) { r.ps(T_NS).to_string() } else { pm[r.below(pm.len())].1.clone() })
+        }
+        3 => r.ps(T_NS).to_string(),  // the namespace itself: empty local part
+        _ => format!("{}{}", if pm.is_empty() || r.chance(1, 4) { r.ps(T_NS).to_string() } else { pm[r.below(pm.len())].1.clone() }, r.ps(T_LOCALS)),
+    }
+}
+fn gen_t_literal(r: &mut Rng, pm: &[(String, String)]) -> T {
+    match r.below(10) {
+        0 | 1 => T::Lang(r.ps(T_STRINGS).to_string(), r.ps(T_TAGS).to_string()),
+        2 | 3 => T::Lit(r.ps(T_STRINGS).to_string(), if r.chance(1, 2) { xsd("string") } else if r.chance(1, 2) { r.ps(T_DATATYPES).to_string() } else { gen_t_iri(r, pm) }),
+        4 => { // random mutation of a numeric form
+            let alphabet: Vec<char> = "0123456789+-.eE".chars().collect();
+            let n = r.range(1, 7);
+            T::Lit((0..n).map(|_| *r.pick(&alphabet)).collect(), xsd(r.ps(&["integer", "decimal", "double"])))
+        }
+        5 | 6 => { // a lexical form in the production of its datatype: written bare
+            let (l, d) = *r.pick(&[("12", "integer"), ("-0", "integer"), ("+007", "integer"), ("1.5", "decimal"), (".5", "decimal"), ("-0.0", "decimal"), ("+12.50", "decimal"), ("1e5", "double"), ("1.e3", "double"),
+                (".5E-3", "double"), ("+1.0e+0", "double"), ("-1E0", "double"), ("true", "boolean"), ("false", "boolean")]);
+            T::Lit(l.to_string(), xsd(d))
+        }
+        _ => T::Lit(r.ps(T_NUM_LEX).to_string(), if r.chance(3, 4) { xsd(r.ps(&["integer", "decimal", "double", "boolean"])) } else { r.ps(T_DATATYPES).to_string() }),
+    }
+}
+fn gen_t_term(r: &mut Rng, pm: &[(String, String)], pos: usize, depth: usize) -> T {
+    // pos: 0 subject 1 predicate 2 object 3 graph name 4 subject of a quoted triple 5 object of a quoted triple
+    let k = r.below(12);
+    match (pos, k) {
+        (1, _) => T::Iri(gen_t_iri(r, pm)),
+        (0 | 2 | 4 | 5, 0 | 1) if depth < 2 => T::Tr(Box::new([gen_t_term(r, pm, 4, depth + 1), gen_t_term(r, pm, 1, depth + 1), gen_t_term(r, pm, 5, depth + 1)])),
+        (2 | 3 | 4 | 5, 2 | 3) => T::B(r.ps(T_LABELS).to_string()),
+        (2 | 5, 4..=8) => gen_t_literal(r, pm),
+        _ => T::Iri(gen_t_iri(r, pm)),
+    }
+}
+
+struct TermCase { pos: usize, term: T, pm: Vec<(String, String)>, class: String, hyps: bool, case: Case }
+fn anchor(l: &str) -> T { T::Iri(format!("urn:{l}")) }
+fn gen_term_case(mut r: Rng) -> TermCase {
+    let (mut pm, pm_class) = gen_t_prefixes(&mut r);
+    let pos = *r.pick(&[2, 2, 2, 2, 2, 0, 0, 1, 3]);
+    let mut class = String::from("term");
+    let mut term = gen_t_term(&mut r, &pm, pos, 0);
+    // rdf:type as a predicate is written `a` by write_properties, not by write_term
+    if pos == 1 && term == T::Iri(format!("{RDF}type")) { term = T::Iri(format!("{RDF}typ")); }
+    // directed material outside the hypotheses (text compared only) and the variable
+    match r.below(40) {
+        0 if pos == 2 => { term = T::V(r.ps(&["x", "v1", "\u{e9}"]).to_string()); class = "variable".into(); }
+        1 if pos == 2 => { term = T::Tr(Box::new([anchor("a"), anchor("b"), T::V("x".into())])); class = "variable".into(); }
+        3 if pos == 2 => { term = T::Lang(r.ps(T_STRINGS).to_string(), r.ps(T_ODD_TAGS).to_string()); class = "tag-not-LANGTAG".into(); }
+        _ => {}
+    }
+    if pm_class != "ok" && class != "term" { pm.pop(); }   // one departure from the hypotheses at a time
+    else if pm_class != "ok" { class = pm_class.into(); }
+    let hyps = class == "term" && term_in_hyps(&term, pos);
+    if class == "term" && !hyps { class = "other-outside-hypotheses".into(); }
+    let (s, p, o) = (anchor("s"), anchor("p"), anchor("o"));
+    let mut quads: Vec<Q> = match pos {
+        0 => vec![(None, [term.clone(), p.clone(), o.clone()])],
+        1 => vec![(None, [s.clone(), term.clone(), o.clone()])],
+        2 => vec![(None, [s.clone(), p.clone(), term.clone()])],
+        _ => vec![(Some(term.clone()), [s.clone(), p.clone(), o.clone()])],
+    };
+    // a blank node object is labelled only if it is referenced twice
+    if pos == 2 && matches!(term, T::B(_)) { quads.push((None, [s, anchor("q"), term.clone()])); }
+    let case = Case { shapes: vec![format!("term:{class}")], quads, prefixes: pm.clone(), indent: "  ".into(), pretty: true, trig: pos == 3 || r.chance(1, 3) };
+    TermCase { pos, term, pm, class, hyps, case }
+}
+/// cut the bytes of the term out of the output: Ok((term bytes, the bytes that follow it)) or Err(what is wrong with the layout)
+fn cut_term(tc: &TermCase, text: &str) -> Result<(Vec<u8>, Vec<u8>), String> {
+    let pre: String = tc.pm.iter().map(|(p, n)| format!("PREFIX {p}: <{n}>\n")).collect();
+    let Some(body) = text.strip_prefix(pre.as_str()) else { return Err("the output does not start with the PREFIX lines of the prefix map".into()) };
+    let (lead, tail): (&str, String) = match tc.pos {
+        0 => ("\n", "\n  <urn:p> <urn:o>.\n".into()),
+        1 => ("\n<urn:s>\n  ", " <urn:o>.\n".into()),
+        2 => ("\n<urn:s>\n  <urn:p> ", ".\n".into()),
+        _ => ("\nGRAPH ", " {\n  <urn:s>\n    <urn:p> <urn:o>.\n}\n".into()),
+    };
+    let Some(rem) = body.strip_prefix(lead) else { return Err(format!("expected {lead:?} before the term")) };
+    let Some(rem) = rem.strip_suffix(tail.as_str()) else { return Err(format!("expected {tail:?} after the term")) };
+    if tc.pos == 2 && matches!(tc.term, T::B(_)) {
+        let mid = ";\n  <urn:q> ";
+        let b = rem.as_bytes();
+        if b.len() < mid.len() || (b.len() - mid.len()) % 2 != 0 { return Err("expected the blank node twice".into()); }
+        let tl = (b.len() - mid.len()) / 2;
+        if &b[tl..tl + mid.len()] != mid.as_bytes() || b[..tl] != b[tl + mid.len()..] { return Err("expected the blank node twice, separated by the second predicate".into()); }
+        let mut after = b[tl..].to_vec(); after.extend_from_slice(tail.as_bytes());
+        return Ok((b[..tl].to_vec(), after));
+    }
+    Ok((rem.as_bytes().to_vec(), tail.into_bytes()))
+}
+fn coq_pm(pm: &[(String, String)]) -> String { coq_list(pm.iter().map(|(p, n)| format!("({}, {})", coq_str(p), coq_str(n)))) }
+
 // ---------------------------------------------------------------- recorded witnesses
 fn witnesses() -> Vec<(&'static str, Case)> {
     let base = |shapes: &[&str], quads: Vec<Q>, trig: bool| Case { shapes: shapes.iter().map(|s| s.to_string()).collect(), quads, prefixes: vec![("ex".into(), EX.into())], indent: "  ".into(), pretty: true, trig };
@@ -612,6 +800,19 @@ fn main() {
         println!("{}", match oracle(&c) { Ok(t) => format!("round-trips:\n{t}"), Err(e) => format!("FAILS: {e}") });
         return;
     }
+    if a.rest.iter().any(|x| x == "--witness-terms") {
+        // single terms built with sophia's CHECKED constructors whose pretty Turtle is not read back
+        let one = |o: T, pm: Vec<(&str, &str)>| Case { shapes: vec!["term".into()], quads: vec![(None, [anchor("s"), anchor("p"), o])], prefixes: pm.into_iter().map(|(p, n)| (p.to_string(), n.to_string())).collect(), indent: "  ".into(), pretty: true, trig: false };
+        for tag in ["a1", "en1-x", "e", "abcdefghi", "a-1", "en"] {
+            let checked = sophia_api::term::LanguageTag::new(tag).is_ok();
+            let c = one(T::Lang("chat".into(), tag.into()), vec![]);
+            println!("language tag {tag:?}: LanguageTag::new accepts it: {checked}; LANGTAG of the Turtle grammar: {}; {}", turtle_langtag_ok(tag),
+                match oracle(&c) { Ok(t) => format!("round-trips: {}", t.trim().replace('\n', " ")), Err(e) => format!("FAILS: {}", e.replace('\n', " ")) });
+        }
+        let c = one(T::Iri("urn:x:b".into()), vec![("a", "urn:x:"), ("a", "urn:y:")]);
+        println!("the same prefix declared twice (assumption `distinct prefixes`): {}", match oracle(&c) { Ok(t) => format!("round-trips: {}", t.trim().replace('\n', " ")), Err(e) => format!("FAILS: {}", e.replace('\n', " ")) });
+        return;
+    }
     if a.rest.iter().any(|x| x == "--witness") {
         let mut bad = 0;
         for (name, c) in witnesses() {
@@ -631,15 +832,65 @@ fn main() {
         return;
     }
     let mut sum = Summary::default();
-    sum.rule = "case = dataset assembled from 1-3 shape fragments (or one literal / one IRI) + prefix map + indentation + pretty flag + Turtle/TriG; \
+    sum.rule = "case = dataset assembled from 1-3 shape fragments (or one literal / one IRI) + prefix map + indentation + pretty flag + Turtle/TriG, or (term stream) one term at one position + prefix map; \
 non-trivial = the dataset has a blank node, a quoted triple, a list, a numeric/boolean literal or an IRI with a local part that is not alphanumeric; distinct = distinct (dataset, configuration)".into();
     let base = Rng::new(a.seed);
     let mut cases = vec![];
     let mut seen = std::collections::HashSet::new();
-    let range: Vec<usize> = match a.only { Some(i) => vec![i], None => (0..a.n).collect() };
+    let range: Vec<usize> = match a.only { Some(i) => vec![i], None => (0..a.n).chain(TERM_BASE..TERM_BASE + a.n / 4).collect() };
+    let clip = |x: &str| -> String { if x.chars().count() > 1200 { format!("{} [...]", x.chars().take(1200).collect::<String>()) } else { x.to_string() } };
     for idx in range {
         CURRENT_CASE.store(idx, Ordering::Relaxed);
         CASE_START_MS.store(now_ms(), Ordering::Relaxed);
+        if idx >= TERM_BASE {
+            // ---- the term stream
+            let tc = gen_term_case(base.fork(idx as u64));
+            let posname = ["subject", "predicate", "object", "graph name"][tc.pos];
+            let desc = format!("[term:{}] {} position, term {} , prefixes={:?}, {}", tc.class, posname, show(&tc.term), tc.pm, if tc.case.trig { "TriG" } else { "Turtle" });
+            sum.bump(&format!("term:{}", tc.class));
+            sum.bump(&format!("term-position:{posname}"));
+            sum.bump(&format!("term-kind:{}", match &tc.term { T::Iri(_) => "iri", T::B(_) => "blank", T::Lit(..) => "literal", T::Lang(..) => "tagged", T::Tr(_) => "quoted", T::V(_) => "variable" }));
+            sum.evaluations += 1;
+            if seen.insert(desc.clone()) { sum.distinct_nontrivial += 1; }
+            if sum.samples.len() < 9 && idx % 5 == 0 { sum.samples.push(format!("case {idx}: {desc}")); }
+            let mut fail: Option<String> = None;
+            let mut shown = String::new();
+            match serialise(&tc.case) {
+                Err(e) => fail = Some(format!("the serializer fails on a single term: {e}")),
+                Ok(text) => {
+                    shown = text.clone();
+                    match cut_term(&tc, &text) {
+                        Err(e) => fail = Some(format!("unexpected layout around the term ({e}); output:\n{text}")),
+                        Ok((obs, after)) => {
+                            let spelling = match obs.as_slice() {
+                                [b'<', b'<', ..] => "quoted-triple", [b'<', ..] => "angle-brackets", [b'_', ..] => "label", [b'"', ..] => "quoted-string", [b'(', ..] => "()", [b'?', ..] => "variable",
+                                [b'0'..=b'9' | b'+' | b'-' | b'.', ..] => "bare-number", b"true" | b"false" => "bare-boolean", _ => "prefixed-name" };
+                            sum.bump(&format!("term-spelling:{spelling}"));
+                            if obs.windows(2).any(|w| w == b"^^") && !obs.ends_with(b">") && obs.starts_with(b"\"") { sum.bump("term-spelling:datatype-as-prefixed-name"); }
+                            let (k, t, pmc) = (tc.pos, coq_term(to_st(&tc.term)), coq_pm(&tc.pm));
+                            let body = if tc.hyps { format!("term_case_ok absf {pmc} {k} {t} {} {}", coq_bytes(&obs), coq_bytes(&after)) }
+                                else if has_var(&tc.term) { format!("term_text_only_ok absf {pmc} {k} {t} {} && rejected {pmc} {k} ({} ++ {})", coq_bytes(&obs), coq_bytes(&obs), coq_bytes(&after)) }
+                                else { format!("term_text_only_ok absf {pmc} {k} {t} {}", coq_bytes(&obs)) };
+                            cases.push((idx, body));
+                        }
+                    }
+                    // ORACLE: within the hypotheses (and with absolute IRIs only: the parser has no base), sophia's parser
+                    // reads the document back to the same statement(s)
+                    fn all_abs(t: &T) -> bool { match t { T::Iri(i) => Iri::new(i.as_str()).is_ok(), T::Lit(_, d) => Iri::new(d.as_str()).is_ok(), T::Tr(b) => b.iter().all(all_abs), _ => true } }
+                    if fail.is_none() && tc.hyps && has_non_bcp47(&tc.term) {
+                        sum.bump(&format!("term:tag-LANGTAG-but-not-BCP47:{}", if oracle(&tc.case).is_ok() { "sophia-reads-it-back" } else { "sophia-rejects-its-own-output" }));
+                    } else if fail.is_none() && tc.hyps && all_abs(&tc.term) {
+                        if let Err(e) = oracle(&tc.case) { fail = Some(e); }
+                    } else if tc.hyps { sum.bump("term-oracle-skipped:relative-iri"); }
+                    else if tc.class == "tag-not-LANGTAG" {
+                        sum.bump(&format!("term:tag-not-LANGTAG:{}", if oracle(&tc.case).is_ok() { "sophia-reads-it-back" } else { "sophia-rejects-its-own-output" }));
+                    }
+                }
+            }
+            if a.only.is_some() { println!("CASE {idx}: {desc}\n=> {}", match &fail { None => format!("ok; output:\n{shown}"), Some(e) => format!("FAILS: {e}") }); }
+            if let Some(e) = fail { sum.oracle_failures.push((idx.to_string(), format!("shape classes [term:{}]: {}\ncase: {}", tc.class, clip(&e), clip(&desc)))); }
+            continue;
+        }
         let mut r = base.fork(idx as u64);
         let stream = idx % 8;
         let (c, coq): (Case, Option<String>) = if stream < 6 {
@@ -658,7 +909,6 @@ non-trivial = the dataset has a blank node, a quoted triple, a list, a numeric/b
         let res = oracle(&c);
         if a.only.is_some() { println!("CASE {idx}: {desc}\n=> {}", match &res { Ok(t) => format!("round-trips; output:\n{t}"), Err(e) => format!("FAILS: {e}") }); }
         if let Err(e) = &res {
-            let clip = |x: &str| -> String { if x.chars().count() > 1200 { format!("{} [...]", x.chars().take(1200).collect::<String>()) } else { x.to_string() } };
             sum.oracle_failures.push((idx.to_string(), format!("shape classes [{}]: {}\ncase: {}", c.shapes.join("+"), clip(e), clip(&desc))));
         }
         for s in &c.shapes { sum.bump(&format!("shape:{s}")); }
@@ -694,7 +944,7 @@ non-trivial = the dataset has a blank node, a quoted triple, a list, a numeric/b
     }
     CASE_START_MS.store(0, Ordering::Relaxed);   // the watchdog only times the implementation
     if a.only.is_none() {
-        let header = "From Sophia.C04 Require Import Model.\n";
+        let header = "From Sophia.Common Require Import Term.\nFrom Sophia.C04 Require Import Model TermRead TermText.\nFrom Sophia.C09 Require Model.\nDefinition absf := Sophia.C09.Model.iri_new_ok.\n";
         sum.shards = write_shards(&a.out, header, &cases, a.shards);
         sum.extra.push(("coq_cases".into(), cases.len().to_string()));
         std::fs::write(format!("{}/summary.json", a.out), sum.to_json()).unwrap();
